@@ -195,17 +195,19 @@ pub fn gen(seed: u64, n: usize, out: &mut Out) {
             3 => {
                 if a.directed {
                     let mut g = build_matrix::<Directed, u16>(&a, &mut r);
+                    let mut base_kind = 3;      // 13 = the dangling edge below was put in on purpose
                     if r.chance(12) {
                         // an edge towards a removed id: update_edge is documented to panic, it does not (known finding)
                         let live: Vec<usize> = g.node_identifiers().map(|x| x.index()).collect();
                         if let (Some(&l), Some(dead)) = (live.first(), (0..NodeIndexable::node_bound(&g)).find(|i| !live.contains(i))) {
                             let _ = catch_unwind(AssertUnwindSafe(|| g.update_edge(petgraph::matrix_graph::NodeIndex::new(l), petgraph::matrix_graph::NodeIndex::new(dead), 5)));
                             out.stat("matrix_edge_to_removed_id");
+                            base_kind = 13;
                         }
                     }
                     let eid = |e: (petgraph::matrix_graph::NodeIndex<u16>, petgraph::matrix_graph::NodeIndex<u16>)| e.0.index() * 100 + e.1.index();
                     let (h, l) = dumpfv!(&g, eid, incoming: yes, adj: yes, ncount: yes, ecount: yes, ebound: no, compact: no, ids: yes);
-                    emit_base(out, id, 3, &h, &l);
+                    emit_base(out, id, base_kind, &h, &l);
                     emit_adaptor(out, ("adaptor".into(), vec![1, 0, 0]), catch_unwind(AssertUnwindSafe(|| dumpfv!(Reversed(&g), eid, incoming: yes, adj: yes, ncount: yes, ecount: yes, ebound: no, compact: no, ids: yes))), true);
                     emit_adaptor(out, ("adaptor".into(), vec![2, 0, 0]), catch_unwind(AssertUnwindSafe(|| dumpfv!(UndirectedAdaptor(&g), eid, incoming: no, adj: no, ncount: yes, ecount: no, ebound: no, compact: no, ids: yes))), false);
                     out.end_case();
